@@ -163,10 +163,15 @@ for _k, _found in {"C01": {**L0_FIELD_CORE, **L0_SCALAR}, "C02": {**L0_FIELD_COR
 _FL_CURVE = reg("Voi.Props.FL.Curve", "Voi.Props.FL.Models", "Voi.Props.FL.Encoding")
 _FL_FIELD = reg("Voi.Props.FL.Field", "Voi.Props.FL.Sqrt")
 _FL_BOUNDS = reg("Voi.Props.FL.Bounds", "Voi.FIR.Sound")
+PROPS["C14"]["theorems"] = {**PROPS["C14"]["theorems"], **reg("Voi.Props.FL.Elligator", "Voi.Props.FL.Sqrt")}
+PROPS["C14"]["gens"] = sorted(set(PROPS["C14"].get("gens") or []) | {"go2ir", "flevel"})
+PROPS["C14"]["streams"] = PROPS["C14"]["streams"] + [("T2", 3000, {"configs": ["purego", "force32bit"]})]
 for _k, _t in {"C03": {**_FL_CURVE, **_FL_BOUNDS}, "C04": {**_FL_FIELD, **_FL_BOUNDS}, "C06": _FL_BOUNDS, "C07": {**_FL_FIELD, **_FL_BOUNDS, **reg("Voi.Props.FL.Montgomery")},
                "C10": {**_FL_CURVE, **reg("Voi.Props.FL.Sqrt")}, "C11": {**_FL_CURVE, **reg("Voi.Props.FL.Sqrt", "Voi.Props.FL.Ristretto"), **_FL_BOUNDS}}.items():
     PROPS[_k]["theorems"] = {**PROPS[_k]["theorems"], **_t}
     PROPS[_k]["gens"] = sorted(set(PROPS[_k].get("gens") or []) | {"go2ir", "flevel"})
+    if _k == "C11":
+        continue  # T2 is already part of the properties below it
     # T2: the real functions against the regenerated field-level programs (validates the field-level translator); serial builds only
     PROPS[_k]["streams"] = PROPS[_k]["streams"] + [("T2", 3000, {"configs": ["purego", "force32bit"]})]
 # Every API-level property also executes its own request stream from 16 goroutines sharing all package-level state: scratch
